@@ -129,7 +129,7 @@ def inspect_and_continue_std(out, kw, pre, res):
         errs.append((f"resume-raises-{type(e).__name__}", str(e)[:300]))
         return
     ns = fs2.ns
-    if ns.iteration == 0 and not ns.nested_samples:
+    if not getattr(ns, "resumed", False) and ns.live_points is None:
         errs.append(("no-checkpoint-left-by-handler", "resume started a fresh run"))
         return
     nested = ns.nested_samples
